@@ -17,8 +17,15 @@ import (
 
 var verifChunk = []int{1, 32, 64, 85}
 
-func verifStation(nregs int) (*cj.RegistrationManager, []*cj.DecoyRegistration, [32]byte) {
+// verifGeo: a GeoIP database that knows the client's country.
+type verifGeo struct{}
+
+func (verifGeo) ASN(ip net.IP) (uint, error)  { return 64500, nil }
+func (verifGeo) CC(ip net.IP) (string, error) { return "ZZ", nil }
+
+func verifStation(nregs int, v6 ...bool) (*cj.RegistrationManager, []*cj.DecoyRegistration, [32]byte) {
 	rm := cj.VerifNewManager()
+	want6 := len(v6) > 0 && v6[0]
 	var priv [32]byte
 	copy(priv[:], verifnd.Bytes("station-privkey", 32))
 	pt, err := prefix.Default([][32]byte{priv})
@@ -40,7 +47,7 @@ func verifStation(nregs int) (*cj.RegistrationManager, []*cj.DecoyRegistration, 
 		for j := range secret {
 			secret[j] = byte(0x40 + i)
 		}
-		if r := rm.VerifAdmit(secret, tt, params, "192.0.2.99:443"); r != nil {
+		if r := rm.VerifAdmit(secret, tt, params, "192.0.2.99:443", want6); r != nil {
 			regs = append(regs, r)
 		}
 	}
@@ -68,18 +75,26 @@ func (w *verifWatch) WrapConnection(data *bytes.Buffer, c net.Conn, phantom net.
 // probed phantom: the station never writes to it, does not return (so cannot
 // close it) before the randomised deadline it set, that deadline lies 5-10 s
 // after accept, and it keeps reading everything the peer sends.
-// verif:shards=9
+// verif:shards=36
 func VerifC03Unauthenticated() {
 	verifnd.Sequential()
-	k := verifnd.Choose("case", 9) // sharded: registrations x segments
+	kk := verifnd.Choose("case", 36) // sharded: registrations x segments x phantom family x GeoIP
+	k := kk % 9
+	v6, geo := (kk/9)%2 == 1, kk/18 == 1
 	nregs, nchunks := k%3, k/3
-	if nregs > 0 && nchunks == 2 && !verifnd.Thorough() {
+	if (nregs > 0 && nchunks == 2 || nregs == 2 && (v6 || geo)) && !verifnd.Thorough() {
 		return // bound (quick): two segments only against an empty registry; all nine cases in the thorough tier
 	}
 	logClientIP = false
 	verifnd.LoopBound("crypto/rand.Int", 2)
-	rm, regs, _ := verifStation(nregs)
+	rm, regs, _ := verifStation(nregs, v6)
+	if geo {
+		rm.GeoIP = verifGeo{}
+	}
 	phantom := net.ParseIP("192.0.2.200").To4()
+	if v6 {
+		phantom = net.ParseIP("2001:db8::200")
+	}
 	if len(regs) > 0 {
 		phantom = regs[0].PhantomIp
 	}
